@@ -410,7 +410,9 @@ def a9(repo, res, canon):
                 if f.name == '__init__':
                     continue
                 nst += 1
-                if v == 'True':
+                if v == 'Instrument.telescope_status':
+                    res.ok('C08.A9', f, n, what, 'keeps its value (no-op)')
+                elif v == 'True':
                     ok = f.name == 'begin_observation'
                     (res.ok if ok else res.bad)('C08.A9', f, n, what, 'ok' if ok else 'telescope_status set outside begin_observation')
                 elif v == 'False':
